@@ -10,13 +10,13 @@ from .. import common
 RULE = ("the complete product configuration family (every built-in agent, market and event type, correlated volatile fundamentals, "
         "all JsonRandom forms, several market groups with randomised endowments, single events, all pairs, all four, and a user event whose every hook call (all nine hook kinds) nudges a fundamental price; plus the "
         "shipped sample configurations shrunk) x seeds x perturbation set {PYTHONHASHSEED 0/1/4242 in separate processes, "
-        "global random/numpy.random re-seeded and advanced (two ways), other runs first in the same process, the same run twice, "
+        "global random/numpy.random re-seeded and advanced (two ways), other runs first in the same process (also runs whose runner registered different user classes under the same names), the same run twice, "
         "the same settings object reused, no logger / the no-op base Logger / MarketStepSaver attached instead of the recording logger (end state compared), a logger making read-only queries (incl. the fundamental generator 150 steps ahead where no shock is configured) at every record, every configuration written to one and the same file (rewritten each time) and given as a path}; the digest of the whole observable outcome must be identical across the perturbations "
         "of one (configuration, seed), settings must not be mutated, and with every un-owned source replaced by a raising stub "
         "all runs must complete; distinct = distinct (configuration, seed) digests")
 # (name, mode, PYTHONHASHSEED)
 PERTURBATIONS = [("hash0", "plain", "0"), ("hash1", "plain", "1"), ("hash4242", "plain", "4242"), ("global_rng_a", "perturb_a", "7"),
-                 ("global_rng_b", "perturb_b", "0"), ("prior_run", "prior_run", "3"), ("twice", "twice", "0"), ("reuse", "reuse", "5"),
+                 ("global_rng_b", "perturb_b", "0"), ("prior_run", "prior_run", "3"), ("prior_namesake", "prior_namesake", "0"), ("twice", "twice", "0"), ("reuse", "reuse", "5"),
                  ("trap", "trap", "0"), ("logger_none", "logger_none", "0"), ("logger_base", "logger_base", "2"), ("logger_saver", "logger_saver", "0"), ("logger_peek", "logger_peek", "0"), ("via_file", "via_file", "0")]
 
 
@@ -97,7 +97,7 @@ def run(tier, seed, only=None):
                 continue
             if got[0] != base[0]:
                 kind = {"hash1": "hash seed", "hash4242": "hash seed", "global_rng_a": "global generators", "global_rng_b": "global generators",
-                        "prior_run": "earlier runs in the process", "twice": "earlier runs in the process", "solo": "earlier runs in the process", "reuse": "reuse of the settings object",
+                        "prior_run": "earlier runs in the process", "prior_namesake": "earlier runs in the process", "twice": "earlier runs in the process", "solo": "earlier runs in the process", "reuse": "reuse of the settings object",
                         "trap": "ambient sources", "via_file": "way the configuration is handed over (a file path used for other configurations before)"}.get(pname, pname)
                 res.add_violation("C07.outcome_differs", "the outcome of a (configuration, seed) depends on the %s | %s: %s vs %s under %s" % (kind, key, base[0], got[0], pname),
                                   "C07.outcome_differs:%s:%s" % (kind.replace(" ", "_"), cfgname.split(":")[0]),
